@@ -213,8 +213,8 @@ def main(check, argv=None):
             k = tuple((kk, str(v[kk])) for kk in sorted(v) if kk not in ("summary", "case"))
             groups.setdefault(k, []).append(v)
         print("---- triage: %d groups" % len(groups))
-        for k, vs in sorted(groups.items(), key=lambda kv: -len(kv[1])):
-            print("%5d  %s\n         e.g. %s" % (len(vs), dict(k), vs[0]["summary"][:300].replace("\n", " ")))
+        for k, vs in sorted(groups.items(), key=lambda kv: -len(kv[1]))[:int(os.environ.get("AKV_TRIAGE_N", "14"))]:
+            print("%5d  %s\n         e.g. %s" % (len(vs), dict(k), vs[0]["summary"][:260].replace("\n", " ")))
 
     capped = bool(skipped) or bool(merged.caps)
     coverage = {
